@@ -20,7 +20,7 @@ RULE = ("(a) system: each of the seven built-in trackers on the full lattice (bl
         "sums to 1.  Non-trivial (a): >= 20 state changes; distinct by digest.")
 ASSUMPTIONS = ["simulate_until_deadlock does not timestamp (S6): history clause only for max_time / max_customers plans",
                "an infinite observation window has no defined share for the final state; the unit oracle uses finite windows"]
-WALL = {"quick": 50, "thorough": 540}
+WALL = {"quick": 150, "thorough": 540}
 
 
 def nontrivial(a, spec, res):
@@ -97,7 +97,7 @@ def subchecks(tier):
     prof.weights.update({"capacity": 0.6, "cc_after": 0.35, "cc_waiting": 0.3, "reneging": 0.35, "ps": 0.05, "slotted": 0.1})
     return [
         system_subcheck("system", prof, lambda spec: [TrackerTruth(spec)], nontrivial, classes=classes,
-                        n={"quick": 3200, "thorough": 50000}, rule="hash_state vs ground truth after every event; history audit"),
-        SubCheck("state_probabilities", hist_execute, strategy=hist_case(), n={"quick": 8000, "thorough": 80000}, kind="unit", is_spec=False,
+                        n={"quick": 9600, "thorough": 50000}, rule="hash_state vs ground truth after every event; history audit"),
+        SubCheck("state_probabilities", hist_execute, strategy=hist_case(), n={"quick": 24000, "thorough": 80000}, kind="unit", is_spec=False,
                  rule="histories of 1-7 states on a dyadic time grid x finite windows with endpoints on / between / beyond timestamps; non-trivial = >= 3 states"),
     ]
